@@ -1,7 +1,7 @@
 (* Checkers evaluated by the correspondence run: each returns the indices of
    the cases on which model and implementation (or spec and observed output)
    differ. *)
-From V Require Import Common.Base C13.KwSpec C13.Token C13.LexSpec C13.Toks C13.ParseSpec gen.KeywordsGen.
+From V Require Import Common.Base C13.KwSpec C13.Token C13.LexSpec C13.Toks C13.ParseSpec C13.RoundTrip gen.KeywordsGen.
 
 Fixpoint mism_from {A} (f : A -> bool) (l : list A) (i : nat) : list nat :=
   match l with
@@ -22,7 +22,7 @@ Definition optab_ok (c : Z * bytes * Z * bool * bool * bool * bool) : bool :=
   | None => false
   end.
 Definition check_optab (l : list (Z * bytes * Z * bool * bool * bool * bool)) : list nat :=
-  mismatches optab_ok l ++ (if (length l =? length all_ops)%nat then [] else [length l]).
+  mismatches optab_ok l ++ (if (length l =? length table_ops)%nat then [] else [length l]).
 
 (* keywords: (word, is key of js_lexer.Keywords at run time, is key of StrictModeReservedWords, lexer token is TIdentifier) *)
 Definition kw_ok (c : bytes * bool * bool * bool) : bool :=
@@ -32,10 +32,11 @@ Definition kw_ok (c : bytes * bool * bool * bool) : bool :=
   && Bool.eqb (negb (mem w ecma_unconditional_reserved)) lexes_as_ident.
 Definition check_kw := mismatches kw_ok.
 
-(* printer: (minify-whitespace, forbidIn, expression tree, bytes printed by js_printer.Print: an expression
-   statement without its terminator, or with forbidIn the initialiser of a for loop without the loop around it) *)
-Definition print_ok (c : bool * bool * expr * bytes) : bool :=
-  let '(mw, fi, e, out) := c in zlist_eqb (print_expr mw fi e) out.
+(* printer: (minify-whitespace, forbidIn, statement start, expression tree, bytes printed by js_printer.Print):
+   an expression statement without its terminator (forbidIn = false, statement start = true), or the
+   initialiser of a for loop without the loop around it (forbidIn = true, statement start = false) *)
+Definition print_ok (c : bool * bool * bool * expr * bytes) : bool :=
+  let '(mw, fi, ss, e, out) := c in zlist_eqb (print_expr mw fi ss e) out.
 Definition check_print := mismatches print_ok.
 
 (* item lists rendered through hand-built trees are covered by check_print;
@@ -46,10 +47,10 @@ Definition tok_eqb (a b : tok) : bool :=
   | TRe b1 f1, TRe b2 f2 => zlist_eqb b1 b2 && zlist_eqb f1 f2
   | _, _ => false
   end.
-Definition relex_ok (c : bool * bool * expr * bytes) : bool :=
-  let '(mw, fi, e, out) := c in
+Definition relex_ok (c : bool * bool * bool * expr * bytes) : bool :=
+  let '(mw, fi, ss, e, out) := c in
   match lex out with
-  | Some ts => list_eqb tok_eqb ts (toks (print_items mw fi LLowest e))
+  | Some ts => list_eqb tok_eqb ts (toks (print_items mw fi ss LLowest e))
   | None => false
   end.
 Definition check_relex := mismatches relex_ok.
@@ -69,7 +70,7 @@ Fixpoint expr_eqb (a b : expr) : bool :=
   | ANil, ANil => true
   | _, _ => false
   end.
-Definition reparse_ok (c : bool * bool * expr * bytes) : bool :=
-  let '(_, fi, e, out) := c in
-  match parse_text fi out with Some e' => expr_eqb e' (norm e) | None => false end.
+Definition reparse_ok (c : bool * bool * bool * expr * bytes) : bool :=
+  let '(_, fi, ss, e, out) := c in
+  match (if ss then parse_stmt_text out else parse_text fi out) with Some e' => expr_eqb e' (norm e) | None => false end.
 Definition check_reparse := mismatches reparse_ok.
